@@ -5,7 +5,7 @@ CONSTANT Gids <- MCGids
 CONSTANT Modes <- MCModes
 CONSTANT Errs <- MCErrs
 SPECIFICATION MSpec
-CONSTRAINT NoKF
+CONSTRAINT NoKF_Mode
 INVARIANT TypeOK
 INVARIANT AcceptArgsAreKernelCreds
 INVARIANT RefusalReported
